@@ -75,6 +75,9 @@ pub enum Op {
     RequestRemoteInterchain { its: u8, deployer: u8, salt: u8 },
     /// the owner upgrades one of the services and completes the migration: the registry is carried over
     UpgradeAndMigrate { its: u8 },
+    /// a holder of the k-th token deployed on that service sends 1 out, then an approved inbound transfer of 5 arrives:
+    /// the service must still be able to mint for inbound transfers, whatever went out before
+    OutboundThenLargerInbound { its: u8, k: u8 },
 }
 
 #[derive(Clone, Debug, Serialize, Deserialize)]
@@ -131,6 +134,7 @@ fn op() -> impl Strategy<Value = Op> {
         1 => (0u8..2, 0u8..4).prop_map(|(its, asset)| Op::RequestRemoteCanonical { its, asset }),
         1 => (0u8..2, 0u8..2, 0u8..2).prop_map(|(its, deployer, salt)| Op::RequestRemoteInterchain { its, deployer, salt }),
         1 => (0u8..2).prop_map(|its| Op::UpgradeAndMigrate { its }),
+        2 => (0u8..2, 0u8..6).prop_map(|(its, k)| Op::OutboundThenLargerInbound { its, k }),
     ]
 }
 
@@ -207,7 +211,7 @@ impl Property for C11 {
 
         for (step, op) in case.ops.iter().enumerate() {
             let si = match op {
-                Op::DeployLocal { its, .. } | Op::RegisterCanonical { its, .. } | Op::RemoteDeploy { its, .. } | Op::RequestRemoteCanonical { its, .. } | Op::RequestRemoteInterchain { its, .. } | Op::UpgradeAndMigrate { its } => {
+                Op::DeployLocal { its, .. } | Op::RegisterCanonical { its, .. } | Op::RemoteDeploy { its, .. } | Op::RequestRemoteCanonical { its, .. } | Op::RequestRemoteInterchain { its, .. } | Op::UpgradeAndMigrate { its } | Op::OutboundThenLargerInbound { its, .. } => {
                     *its as usize % 2
                 }
                 Op::AdvanceDays(_) => 0,
@@ -390,6 +394,36 @@ impl Property for C11 {
                         svcs[si].reg.insert(want_id, Entry { addr: a.clone(), native: false });
                         svcs[si].order.push(want_id);
                     }
+                }
+                Op::OutboundThenLargerInbound { k, .. } => {
+                    let s = &svcs[si];
+                    let natives: Vec<[u8; 32]> = s.order.iter().filter(|id| s.reg[*id].native).cloned().collect();
+                    if natives.is_empty() {
+                        continue;
+                    }
+                    let id = natives[*k as usize % natives.len()];
+                    let t = w.token(&s.reg[&id].addr);
+                    if !t.is_minter(&s.id) {
+                        // (the configuration of the known finding: the service cannot mint there in the first place)
+                        continue;
+                    }
+                    let Some(holder) = w.users.iter().find(|u| t.balance(u) > 0).cloned() else { continue };
+                    w.fund_gas(&holder, 5);
+                    env.mock_all_auths_allowing_non_root_auth();
+                    let out = s.client.try_interchain_transfer(&holder, &BytesN::from_array(env, &id), &sstr(env, "ethereum"), &soroban_sdk::Bytes::from_slice(env, &[1, 2, 3]), &1, &None, &w.gas_token(1));
+                    ensure_p!(matches!(out, Ok(Ok(()))), "step {}: outbound transfer of 1 by a holder of a deployed token refused: {:?}", step, out);
+                    msg_no += 1;
+                    let before = t.balance(&recipient);
+                    let inner = AMsg::Transfer { token_id: id, source: vec![1, 2, 3], dest: address_xdr(env, &recipient), amount: word_u128(5), data: vec![] };
+                    let payload = ItsWorld::receive_payload("ethereum", &inner);
+                    let mid = format!("after-out-{}", msg_no);
+                    w.approve_for(&s.id, HUB_CHAIN, &mid, HUB_ADDR, &payload)?;
+                    env.set_auths(&[]);
+                    let r = s.client.try_execute(&sstr(env, HUB_CHAIN), &sstr(env, &mid), &sstr(env, HUB_ADDR), &soroban_sdk::Bytes::from_slice(env, &payload));
+                    cx.count("must_succeed");
+                    cx.label("inbound_larger_than_what_went_out_before");
+                    nontrivial = true;
+                    ensure_p!(matches!(r, Ok(Ok(()))) && t.balance(&recipient) == before + 5, "step {}: after an outbound transfer of 1 the service no longer mints an approved inbound transfer of 5 for its own token: {:?}", step, r);
                 }
                 Op::UpgradeAndMigrate { .. } => {
                     upgrade_and_migrate(env, &svcs[si].id).map_err(|e| format!("step {}: {}", step, e))?;
